@@ -323,6 +323,7 @@ func c20Build(c *fw.Ctx, p c20Param) *schedInst {
 		}
 	}
 	panics := make([]string, len(p.Threads))
+	lastStatus := make([]int, len(p.Threads))
 	cctx, cancel := context.WithCancel(context.Background())
 	for i, n := range p.Threads {
 		i, n := i, n
@@ -341,9 +342,11 @@ func c20Build(c *fw.Ctx, p c20Param) *schedInst {
 		}
 		inst.Threads = append(inst.Threads, func() {
 			for _, r := range c20GcsReqs(n) {
-				if resp := d.DoCtx(ctx, r); resp.Panic != "" {
+				resp := d.DoCtx(ctx, r)
+				if resp.Panic != "" {
 					panics[i] = r.String() + ": " + resp.Panic
 				}
+				lastStatus[i] = resp.Status
 			}
 		})
 	}
@@ -363,6 +366,16 @@ func c20Build(c *fw.Ctx, p c20Param) *schedInst {
 		if r := d.Do(gcs.ReqGetMeta("b", "y")); r.Panic != "" || (r.Status != 200 && r.Status != 404) {
 			return "after", fmt.Sprintf("after the request mix a valid metadata GET answers %d %s", r.Status, r.Panic), "after"
 		}
+		// previously stored data intact: an upload into the fresh bucket that was acknowledged (and that nothing in
+		// the mix deletes) is served afterwards
+		for i, n := range p.Threads {
+			if strings.HasPrefix(n, "UploadNB") && lastStatus[i] == 200 {
+				obj := "o" + strings.TrimPrefix(n, "UploadNB")
+				if r := d.Do(gcs.ReqGetMedia("json", "nb", obj)); r.Status != 200 || string(r.Body) != "nb-"+obj {
+					return "lost", fmt.Sprintf("the upload of nb/%s was acknowledged with 200, afterwards its download answers %d %.40q", obj, r.Status, r.Body), "lost"
+				}
+			}
+		}
 		return "", "", "ok"
 	}
 	return inst
@@ -376,6 +389,12 @@ func c20GcsReqs(name string) []gcs.HTTPReq {
 		return []gcs.HTTPReq{gcs.ReqCreateBucket("b")}
 	case "DeleteBucket":
 		return []gcs.HTTPReq{gcs.ReqDeleteBucket("b")}
+	case "CreateNB": // a bucket that does not exist before the mix
+		return []gcs.HTTPReq{gcs.ReqCreateBucket("nb")}
+	case "UploadNB1":
+		return []gcs.HTTPReq{gcs.ReqUploadMedia("nb", "o1", []byte("nb-o1"), gcs.ObjMeta{ContentType: "text/m"}, nil, false)}
+	case "UploadNB2":
+		return []gcs.HTTPReq{gcs.ReqUploadMultipart("nb", "o2", []byte("nb-o2"), gcs.ObjMeta{ContentType: "text/m"}, nil, false)}
 	case "UploadMedia":
 		return []gcs.HTTPReq{gcs.ReqUploadMedia("b", "x", []byte("media"), gcs.ObjMeta{ContentType: "text/m"}, nil, false)}
 	case "UploadMultipart":
@@ -567,6 +586,10 @@ func runC20Race(c *fw.Ctx, item *int64) {
 			for j := i; j < len(c20GcsOps); j++ {
 				scen = append(scen, c20Param{Side: "gcs", Store: store, Threads: []string{c20GcsOps[i], c20GcsOps[j]}})
 			}
+		}
+		// first writes into a bucket that does not exist yet, racing each other and the bucket's creation
+		for _, tr := range [][]string{{"UploadNB1", "UploadNB2"}, {"CreateNB", "UploadNB1"}, {"CreateNB", "UploadNB1", "UploadNB2"}, {"CreateNB", "CreateNB"}} {
+			scen = append(scen, c20Param{Side: "gcs", Store: store, Threads: tr})
 		}
 		// a client that goes away while its request waits for (or holds) object locks
 		for _, tr := range [][]string{{"Patch", "Compose@ctx", "CancelCtx"}, {"UploadMedia", "Copy@ctx", "CancelCtx"}, {"Compose", "Patch@ctx", "CancelCtx"}, {"Delete", "GetMedia@ctx", "CancelCtx"}} {
